@@ -55,10 +55,13 @@ def short(b, texts):
     return "S%d flags=%d :: %s" % (b["sid"], ctx_flags(b["pcfg"]), " || ".join(texts))
 
 
-def cmp_cblog(exp_log, obs_cb, diffs):
+def cmp_cblog(exp_log, obs_cb, diffs, scratch=None):
     """callback invocations (value-parsing, validation, function) in order"""
     want = [e for e in exp_log]
     got = [c for c in obs_cb if c["k"] in ("parse", "valid", "func")]
+    if scratch:
+        # the driver substitutes the scratch root for "$R" in every text: undo it in what the callbacks saw
+        got = [dict(c, argv=[a.replace(scratch, "$R") for a in c["argv"]]) if c["k"] == "func" else c for c in got]
     if len(want) != len(got):
         diffs.append("callback log length expected %d observed %d (exp %s obs %s)" % (
             len(want), len(got), [(e["k"], e["o"]) for e in want], [(c["k"], c["o"]) for c in got]))
@@ -112,7 +115,7 @@ def check_parse_result(exp, line, diffs, aspects, pol, clean=True, base_out=0, s
                     o1["file"], o1["line"], efile, e1["line"], o1["msg"])))
     if "cb" in aspects:
         d = []
-        cmp_cblog(exp["cblog"], line["cb"], d)
+        cmp_cblog(exp["cblog"], line["cb"], d, scratch)
         diffs.extend(("cb", x) for x in d)
     if "freed" in aspects:
         want = sorted(exp["freed"])
@@ -140,7 +143,7 @@ def clean_all(b):
 
 
 def replay(verdict, exe, res, aspects, pol=None, seed=0, renderings=("canonical",), tag="parse",
-           maxbeh=None, sigprefix="parse", extra_before=None):
+           maxbeh=None, sigprefix="parse", extra_before=None, extra_check=None):
     """Replay every behaviour of a TLC run; record violations in verdict.
     aspects: subset of {'tree','diag','diagpos','cb','freed','balance'}"""
     pol = pol or {}
@@ -203,6 +206,11 @@ def replay(verdict, exe, res, aspects, pol=None, seed=0, renderings=("canonical"
                                   "%s :: %s" % (desc, "; ".join(d for _, d in diffs[:6])),
                                   dict(replay_obj, observed=line, expected=p["exp"]))
                 break
+        if extra_check:
+            more = extra_check(b, g, plines)
+            if more:
+                verdict.violation("%s:%s:%s" % (sigprefix, "+".join(sorted(set(k for k, _ in more))), desc),
+                                  "%s :: %s" % (desc, "; ".join(d for _, d in more[:4])), replay_obj)
         if "roundtrip" in aspects:
             from .apicheck import rt_check
             rt_check(verdict, {"pre": True, "calls": [], "printed": []}, g, desc, replay_obj, sigprefix)
